@@ -338,6 +338,12 @@ func genScenario(r *common.Rand, idx int) *Scenario {
 	sc.Via = common.Pick(r, []string{"memory", "oci", "memory", "oci", "remote"})
 	sc.Tamper = r.Chance(1, 3)
 	sc.ReproPair = r.Chance(1, 2)
+	if idx < 240 {
+		// the first scenarios walk through every intermediate store x SkipUnpack x ForceCAS x IgnoreNoName
+		sc.Via = []string{"memory", "oci", "remote"}[idx%3]
+		bits := (idx / 3) % 8
+		sc.SkipUnpack, sc.ForceCAS, sc.IgnoreNoName = bits&1 != 0, bits&2 != 0, bits&4 != 0
+	}
 	big := idx%16 == 3
 	bad := r.Chance(1, 7)
 	nItems := 1 + r.Intn(4)
@@ -837,6 +843,7 @@ func runScenario(sc *Scenario) {
 	run.Count("via=" + sc.Via)
 	run.Count(fmt.Sprintf("opts repro=%d preserve=%d skipUnpack=%d forceCAS=%d ignoreNoName=%d", b2i(sc.Repro), b2i(sc.Preserve), b2i(sc.SkipUnpack), b2i(sc.ForceCAS), b2i(sc.IgnoreNoName)))
 	run.Count(fmt.Sprintf("umask=%03o", sc.Umask))
+	run.Count(fmt.Sprintf("matrix via=%s skipUnpack=%d forceCAS=%d ignoreNoName=%d", sc.Via, b2i(sc.SkipUnpack), b2i(sc.ForceCAS), b2i(sc.IgnoreNoName)))
 
 	// ---- Add + descriptor clause
 	var descs []ocispec.Descriptor
@@ -1073,7 +1080,18 @@ func runScenario(sc *Scenario) {
 	if cerr != nil {
 		run.Count("copy-in=" + strings.SplitN(errClass(cerr), ":", 2)[0])
 		if allBenign {
-			fail(scid, "copy-in-failed", cerr.Error())
+			// the restore did not complete (as opposed to "restored differently": path-missing, kind,
+			// file-bytes, link-target, mode, path-extra below)
+			sig := "restore-failed-other"
+			switch msg := cerr.Error(); {
+			case strings.Contains(msg, "mismatch"):
+				sig = "restore-failed-verify" // digest/size verification of a blob or of the tar stream
+			case strings.Contains(msg, "failed to extract tar"):
+				sig = "restore-failed-extract" // extractTarDirectory rejected or could not create an entry
+			case strings.Contains(msg, "failed to restore duplicated file"):
+				sig = "restore-failed-duplicate"
+			}
+			fail(scid, sig, cerr.Error())
 			return
 		}
 	} else {
